@@ -161,6 +161,18 @@ func (x *fnCtx) explore() {
 	fr.oldHeap = st.heap.snapshot()
 	if !x.collecting {
 		x.vacuityCheck(st, "requires")
+		// `captures readonly`: decided on the SSA form - every use of a captured variable's cell
+		// in this closure is a load (callbacks that run on several goroutines at once must not
+		// share state through the variables of the function that created them)
+		if x.con.CapturesRO {
+			for _, fv := range x.fn.FreeVars {
+				goal := True
+				if !closureOnlyReads(x.fn, fv) {
+					goal = False
+				}
+				x.addVC(st, x.short, "capture", 0, fv.Name(), goal, "captures readonly: the closure only loads the captured variable "+fv.Name(), x.eng.posStr(x.fn.Pos()))
+			}
+		}
 		// lemmas: pure implications discharged on their own in the entry state
 		for _, cl := range x.con.ClausesOf("lemma") {
 			if !cl.appliesTo(x.eng.prop) {
@@ -182,6 +194,36 @@ func (x *fnCtx) explore() {
 		x.assumeRequires(st, fr)
 		fr.oldHeap = st.heap.snapshot()
 		x.startAtHeader(st, fr, h, i+1)
+	}
+	x.undecidedTraceClauses()
+}
+
+// undecidedTraceClauses: a ^-anchored trace_ensures clause is decided on entry paths only; if
+// every return of the function lies behind a loop, the clause would generate nothing and pass
+// vacuously. Such a clause is reported as an obligation that cannot be discharged (the author
+// states the prefix with `loop N trace_entry` and the rest with unanchored patterns instead).
+func (x *fnCtx) undecidedTraceClauses() {
+	if x.collecting || x.con == nil || !x.eng.cfg.Layers["trace"] || (x.con.OnlyLayers != nil && !x.con.OnlyLayers["trace"]) {
+		return
+	}
+	for _, kind := range []string{"trace_ensures", "trace_panics"} {
+		for _, cl := range x.con.ClausesOf(kind) {
+			if !cl.appliesTo(x.eng.prop) || !strings.HasPrefix(strings.TrimPrefix(cl.Arg, "!"), "^") {
+				continue
+			}
+			name := fmt.Sprintf("%s/%s/%s#%d", x.eng.prop, x.short, kind, cl.Ord)
+			if _, ok := x.eng.obls[name]; ok || kind == "trace_panics" {
+				continue
+			}
+			if !x.reachedReturn {
+				continue
+			}
+			x.eng.logAbs("%s: %s#%d is ^-anchored but no path from the entry reaches a return without crossing a loop header: the clause is undecided", x.short, kind, cl.Ord)
+			ob := &Obligation{Name: name + ".undecided", Func: x.short, Kind: kind, Ord: cl.Ord, Desc: "clause is never decided: every return lies behind a loop header (" + cl.Text + " : " + cl.Arg + ")", Pos: cl.Line}
+			ob.VCs = []*VC{{Goal: False, From: "entry", Note: ob.Desc}}
+			x.eng.obls[ob.Name] = ob
+			x.eng.order = append(x.eng.order, ob.Name)
+		}
 	}
 }
 
@@ -591,6 +633,20 @@ func (x *fnCtx) arriveAtHeader(st *State, fr *Frame, h, pred *ssa.BasicBlock, or
 				x.addVC(st, x.short, "trace_step", ord, name, Not(cond), fmt.Sprintf("events of one iteration of loop %d [%s] must match %s when %s", ord, strings.TrimSpace(traceString(st.trace)), cl.Arg, cl.Text), cl.Line)
 			}
 		}
+		if cl.Kind == "trace_entry" && cl.Loop == ord && !backEdge && cl.appliesTo(x.eng.prop) && st.from == "entry" && x.eng.cfg.Layers["trace"] {
+			// the events from the function's entry to the first arrival at this loop
+			ok, err := traceMatches(cl.Arg, st.trace)
+			if err != nil {
+				x.fail("bad trace pattern %q: %v", cl.Arg, err)
+			}
+			name := fmt.Sprintf("%d", cl.Ord)
+			if ok {
+				x.eng.noteTrivial(fmt.Sprintf("%s/%s/trace_entry#%d.%s", x.eng.prop, x.short, ord, name), x.short, "trace_entry", ord, cl.Text)
+			} else {
+				cond := x.evalClause(env, cl.Cond, cl.Text)
+				x.addVC(st, x.short, "trace_entry", ord, name, Not(cond), fmt.Sprintf("events from entry to loop %d [%s] must match %s when %s", ord, strings.TrimSpace(traceString(st.trace)), cl.Arg, cl.Text), cl.Line)
+			}
+		}
 		if cl.Kind == "decreases" && cl.Loop == ord && backEdge {
 			if prev, ok := st.ghost[fmt.Sprintf("$variant%d", ord)]; ok {
 				cur := x.evalSpec(env, cl.Expr)
@@ -787,6 +843,7 @@ func (x *fnCtx) checkPost(st *State, fr *Frame, res []*Val) {
 		x.checkAllocates(st, fr)
 	}
 	if x.eng.cfg.Layers["trace"] {
+		x.reachedReturn = true
 		x.checkTrace(st, env, "trace_ensures")
 	}
 	x.lockCheckAtReturn(st, fr, env)
